@@ -202,6 +202,7 @@ func runSessionWorld(rc *RunCtx) (out *Outcome) {
 	for _, op := range ops {
 		logf("%s", op.desc)
 	}
+	failDisguise := drawDisguise(ch, "writer failure") // the first write or flush error is returned as itself, whatever it matches
 	presetCT := ""
 	if ch.Chance(1, 5, "Content-Type already set before the upgrade") {
 		presetCT = []string{"application/json", "text/plain; charset=utf-8", "text/event-stream; charset=utf-8"}[ch.Intn(3, "preset content type")]
@@ -210,7 +211,7 @@ func runSessionWorld(rc *RunCtx) (out *Outcome) {
 	}
 	// run(failAt) executes the sequence against a fresh writer and checks the call log
 	run := func(failAt int) (calls int) {
-		core := &rwCore{header: http.Header{}, failAt: failAt, failErr: newInjected(fmt.Sprintf("writer op#%d", failAt))}
+		core := &rwCore{header: http.Header{}, failAt: failAt, failErr: newInjectedAs(fmt.Sprintf("writer op#%d", failAt), failDisguise)}
 		if presetCT != "" {
 			core.header.Set("Content-Type", presetCT) // a middleware's default, or one prepared for an error body
 		}
